@@ -7,6 +7,7 @@ import (
 	"go/ast"
 	"go/token"
 	"go/types"
+	"os"
 	"strings"
 
 	"golang.org/x/tools/go/ssa"
@@ -15,6 +16,8 @@ import (
 type suiteRow struct {
 	id, cipher, mac, aead string
 	keyLen, macLen, ivLen int64
+	ka                    string
+	flags                 int64
 	pos                   token.Pos
 }
 
@@ -50,7 +53,7 @@ func c15SuiteRows(c *Ctx) []suiteRow {
 				}
 				return types.ExprString(x)
 			}
-			rows = append(rows, suiteRow{id: id(r.Elts[0]), keyLen: num(r.Elts[1]), macLen: num(r.Elts[2]), ivLen: num(r.Elts[3]), cipher: id(r.Elts[6]), mac: id(r.Elts[7]), aead: id(r.Elts[8]), pos: r.Pos()})
+			rows = append(rows, suiteRow{id: id(r.Elts[0]), keyLen: num(r.Elts[1]), macLen: num(r.Elts[2]), ivLen: num(r.Elts[3]), cipher: id(r.Elts[6]), mac: id(r.Elts[7]), aead: id(r.Elts[8]), ka: id(r.Elts[4]), flags: num(r.Elts[5]), pos: r.Pos()})
 		}
 	}
 	return rows
@@ -607,6 +610,8 @@ func c15Panics(c *Ctx, scope []*ssa.Function, completeOK, suitesOK, versionOK bo
 				c.Holds("B-PANIC", name, construct, "precondition of an internal helper: established at every call site in the closure", in.Pos())
 			case byRule[name].rule != "":
 				c.Check(byRule[name].ok, "B-PANIC", name, construct, "unreachable by "+byRule[name].rule, "the rule that makes this panic unreachable does not hold ("+byRule[name].rule+")", in.Pos())
+			case strings.HasSuffix(name, ".generateClientKeyExchange") && exempt[name] != "":
+				c.Check(c15CurveGuard(c, f), "B-PANIC", name, construct, "unreachable: the function returns an error while ka.curveid is still zero (no ServerKeyExchange processed), and "+exempt[name], "with ka.curveid == 0 — a server that skips its ServerKeyExchange — this panic is reachable: curveForCurveID(0) fails and the client crashes instead of reporting the missing message", in.Pos())
 			case exempt[name] != "":
 				c.Notes = append(c.Notes, "exempt B-PANIC|"+name+"|"+construct+": "+exempt[name])
 			default:
@@ -733,5 +738,173 @@ func c15Phase(c *Ctx) {
 			}
 		}
 		c.Check(!reachable && guarded, rule, fname(f), s.name+" only for the record type the caller is waiting for", "", "a record of a type the caller is not waiting for (e.g. a handshake record where ChangeCipherSpec is due) can reach this delivery point", s.in.Pos())
+	}
+	// a handshake message may not straddle the cipher change: with unread handshake bytes pending (c.hand.Len() >= 1)
+	// the cipher change is unreachable (decided on values through the interval evaluator)
+	ci := newCondIndex(f, allParamNames(f))
+	if os.Getenv("GMSMCHECK_DEBUG") != "" {
+		for _, s := range ci.conds {
+			if strings.Contains(s, "Len") {
+				dbg("c15Phase cond %s", s)
+			}
+		}
+	}
+	for _, s := range sinks {
+		if s.name != "cipher change" {
+			continue
+		}
+		hit := false
+		ci.withInterval("call:(*bytes.Buffer).Len(field:hand(c))", 1, 0, func() {
+			hit = reach([]*ssa.BasicBlock{f.Blocks[0]}, deadEdges(f))[s.in.Block()]
+		})
+		c.Evals += len(ci.conds)
+		c.Check(!hit, rule, fname(f), "no cipher change while part of a handshake message is still buffered", "with c.hand.Len() >= 1 the changeCipherSpec call is unreachable", "with unread handshake bytes pending the cipher change is still performed: a handshake message fragmented across ChangeCipherSpec is accepted, its tail read under the new keys", s.in.Pos())
+	}
+}
+
+// c15CurveGuard: the "internal error" panic of a client key exchange is only dead when (a) the function refuses to
+// run without a ServerKeyExchange (curveid still zero) and (b) processServerKeyExchange never succeeds with a curve
+// curveForCurveID does not know. (a) is decided on values: assuming ka.curveid == 0, no panic block is reachable.
+func c15CurveGuard(c *Ctx, f *ssa.Function) bool {
+	var recv ssa.Value
+	if len(f.Params) > 0 {
+		recv = f.Params[0]
+	}
+	ci := newCondIndex(f, map[ssa.Value]string{recv: "ka"})
+	if os.Getenv("GMSMCHECK_DEBUG") != "" {
+		for _, s := range ci.conds {
+			dbg("c15CurveGuard %s cond %s", fname(f), s)
+		}
+	}
+	var hit *ssa.BasicBlock
+	n := ci.withAssumptions([]assumption{{"eq(ka.curveid,0x0)", true}}, func() {
+		for b := range reach([]*ssa.BasicBlock{f.Blocks[0]}, deadEdges(f)) {
+			if _, ok := b.Instrs[len(b.Instrs)-1].(*ssa.Panic); ok {
+				hit = b
+			}
+		}
+	})
+	c.Evals += len(ci.conds)
+	_ = n
+	return hit == nil
+}
+
+// c15Compression: a server only ever answers with null compression, so a ClientHello whose compression list does
+// not contain it must abort. Decided on values: in every function that fixes the ServerHello's compressionMethod,
+// assuming each comparison of an offered method with 0 fails, no successful return is reachable (the search may be a
+// loop, a helper's boolean, or bytes.IndexByte — only the tests against the offered bytes are assumed).
+func c15Compression(c *Ctx) {
+	rule := "G-C15-compression"
+	n := 0
+	for _, f := range c.P.RepoFuncs("gmtls") {
+		if strings.HasSuffix(c.P.relFile(f.Pos()), "_test.go") || f.Name() == "unmarshal" || f.Name() == "marshal" {
+			continue
+		}
+		sets := false
+		instrsOf(f, func(_ *ssa.BasicBlock, in ssa.Instruction) {
+			if st, ok := in.(*ssa.Store); ok {
+				if fa, ok := st.Addr.(*ssa.FieldAddr); ok && fieldName(fa.X.Type(), fa.Field) == "compressionMethod" {
+					sets = true
+				}
+			}
+		})
+		if !sets {
+			continue
+		}
+		spec, ok := defaultResultSpec(f)
+		if !ok {
+			continue
+		}
+		n++
+		ci := newCondIndex(f, allParamNames(f))
+		if os.Getenv("GMSMCHECK_DEBUG") != "" {
+			for _, s := range ci.conds {
+				if strings.Contains(s, "ompression") {
+					dbg("c15Compression %s cond %s", fname(f), s)
+				}
+			}
+		}
+		ci.requireAssume(c, rule, "a ClientHello without null compression aborts", []assumption{{`re:eq\((idx\(|call:bytes\.IndexByte\().*compressionMethods.*,(0x0|-0x1)\)`, false}}, spec, nil,
+			"the server answers with null compression whether or not the client offered it")
+	}
+	for _, name := range []string{"(*clientHandshakeState).processServerHello", "(*clientHandshakeStateGM).processServerHello"} {
+		f := c.Fn("gmtls", name)
+		if f == nil {
+			c.Missing(rule, "gmtls."+name, "method", "not found")
+			continue
+		}
+		ci := newCondIndex(f, allParamNames(f))
+		var r bool
+		var w *ssa.BasicBlock
+		ci.withInterval("hs.serverHello.compressionMethod", 1, 255, func() {
+			r, w = canReachSuccess(f.Blocks[0], nil, successExits(f, resultSpec{1, "error"}), deadEdges(f))
+		})
+		c.Evals += len(ci.conds)
+		construct := "a ServerHello selecting a compression method other than null aborts"
+		if r {
+			c.Violated(rule, fname(f), construct, "with compressionMethod in 1..255 the successful return at "+c.P.pos(lastPos(w))+" is reachable: the client carries on with a compression method it never offered and does not implement", lastPos(w))
+		} else {
+			c.Holds(rule, fname(f), construct, "with compressionMethod in 1..255 no successful return is reachable (decided on values)", f.Pos())
+		}
+	}
+	if n < 4 {
+		c.Undecided(rule, "gmtls", "functions that fix the ServerHello compression method", fmt.Sprintf("only %d found", n), token.NoPos)
+	}
+}
+
+// c06SuiteFlags: the flags and key agreement of every row of the TLS suite table agree with what the suite's
+// registered name says (the name IS the specification of the suite): _SHA384 suites use the SHA-384 PRF, ECDHE suites
+// send a ServerKeyExchange, _ECDSA_ suites need an ECDSA certificate, AEAD and SHA-256 MAC suites exist from TLS 1.2 on.
+// A row whose flags disagree negotiates fine against itself (both ends of this package read the same table) and fails
+// or silently weakens against every other implementation.
+func c06SuiteFlags(c *Ctx) {
+	rule := "K-C06-suiteflags"
+	rows := c15SuiteRows(c)
+	flag := func(name string) int64 {
+		pk := c.P.Pkgs["gmtls"]
+		if pk == nil {
+			return -1
+		}
+		if k, ok := pk.Types.Scope().Lookup(name).(*types.Const); ok {
+			if b, ok := constBig(k.Val()); ok {
+				return b.Int64()
+			}
+		}
+		return -1
+	}
+	fECDHE, fECDSA, fTLS12, fSHA384 := flag("suiteECDHE"), flag("suiteECDSA"), flag("suiteTLS12"), flag("suiteSHA384")
+	if len(rows) < 20 || fECDHE <= 0 || fECDSA <= 0 || fTLS12 <= 0 || fSHA384 <= 0 {
+		c.Undecided(rule, "gmtls.cipherSuites", "table and flag constants", fmt.Sprintf("%d rows read", len(rows)), token.NoPos)
+		return
+	}
+	for _, r := range rows {
+		c.Evals++
+		if r.flags < 0 {
+			c.Undecided(rule, "gmtls suite "+r.id, "flags", "the flags are not a constant expression", r.pos)
+			continue
+		}
+		var bad []string
+		iff := func(nameSays bool, f int64, what string) {
+			if nameSays != (r.flags&f != 0) {
+				bad = append(bad, fmt.Sprintf("%s: the name says %v, the row says %v", what, nameSays, r.flags&f != 0))
+			}
+		}
+		iff(strings.Contains(r.id, "ECDHE"), fECDHE, "suiteECDHE")
+		if strings.HasPrefix(r.id, "TLS_") {
+			iff(strings.HasSuffix(r.id, "_SHA384"), fSHA384, "suiteSHA384")
+			iff(strings.Contains(r.id, "_ECDSA_"), fECDSA, "suiteECDSA")
+			iff(r.aead != "nil" || r.mac == "macSHA256", fTLS12, "suiteTLS12")
+			wantKA := "rsaKA"
+			switch {
+			case strings.HasPrefix(r.id, "TLS_ECDHE_RSA_"):
+				wantKA = "ecdheRSAKA"
+			case strings.HasPrefix(r.id, "TLS_ECDHE_ECDSA_"):
+				wantKA = "ecdheECDSAKA"
+			}
+			if r.ka != wantKA {
+				bad = append(bad, "key agreement "+r.ka+", the name says "+wantKA)
+			}
+		}
+		c.Check(len(bad) == 0, rule, "gmtls suite "+r.id, "flags and key agreement agree with the registered name", "", strings.Join(bad, "; "), r.pos)
 	}
 }
